@@ -122,31 +122,4 @@ theorem insert_no_panic {c d : Cfg} (hd : WF d) : (CfgEdit.insert c d).res ≠ .
 theorem map_no_panic {α β : Type} {r : Res α} (f : α → β) (h : r ≠ .panic) : r.map f ≠ .panic := by
   cases r <;> simp_all [Res.map]
 
-/-- no editing operation panics when every graph is well formed -/
-theorem step_no_panic (s : Graphs) (hs : ∀ g, WF (s g)) (o : EditOp) : (o.step s).res ≠ .panic := by
-  cases o with
-  | newBlock g => exact map_no_panic _ (ofRes_no_panic (insertVertex_no_panic _ _))
-  | uedge g h t => exact map_no_panic _ (ofRes_no_panic (insertEdge_no_panic _ _))
-  | cedge g h t e => exact map_no_panic _ (ofRes_no_panic (insertEdge_no_panic _ _))
-  | entry g i => apply map_no_panic; unfold setEntry; split <;> simp
-  | exit g i => apply map_no_panic; unfold setExit; split <;> simp
-  | merge g => apply map_no_panic; rw [merge_total (hs g)]; simp
-  | append g h => exact map_no_panic _ (append_no_panic (hs h))
-  | insert g h => exact map_no_panic _ (insert_no_panic (hs h))
-  | op g b o => apply map_no_panic; unfold blockOp; split <;> simp
-  | bappend g b h j => apply map_no_panic; unfold blockAppendOp; split <;> simp
-  | rmins g b i =>
-    apply map_no_panic; unfold removeInstruction
-    split
-    · split
-      · simp
-      · simp
-      · rename_i hp
-        unfold blockRemoveInstruction at hp
-        split at hp <;> simp at hp
-    · simp
-  | temp g n =>
-    show ((CfgEdit.temp (s g) n).res.map Outcome.scalar) ≠ .panic
-    simp [CfgEdit.temp, Res.map]
-
 end Falcon.C15
